@@ -60,7 +60,26 @@ def kinds_of_test(test, selfname):
     if isinstance(test, ast.Call) and isinstance(test.func, ast.Attribute) and norm(test.func.value) == selfname \
             and test.func.attr in PRED and not test.args:
         return set(PRED[test.func.attr])
+    # self.dtype.kind in "biu" / in ("b", "i") / == "f": NumPy's one-letter kind codes
+    if isinstance(test, ast.Compare) and len(test.ops) == 1 and norm(test.left) == f"{selfname}.dtype.kind":
+        rhs = test.comparators[0]
+        codes = None
+        if isinstance(rhs, ast.Constant) and isinstance(rhs.value, str):
+            codes = list(rhs.value) if isinstance(test.ops[0], (ast.In, ast.NotIn)) else [rhs.value]
+        elif isinstance(rhs, (ast.Tuple, ast.List, ast.Set)) and all(isinstance(e, ast.Constant) and isinstance(e.value, str) for e in rhs.elts):
+            codes = [e.value for e in rhs.elts]
+        if codes is not None and all(c in KIND_OF_CODE for c in codes):
+            ks = {KIND_OF_CODE[c] for c in codes}
+            if isinstance(test.ops[0], (ast.In, ast.Eq)):
+                return ks
+            if isinstance(test.ops[0], (ast.NotIn, ast.NotEq)):
+                return ALL_KINDS - ks
     return None
+
+
+# NumPy dtype.kind codes -> the element kinds of this module ('i' is signed integers only: timedelta64 has kind 'm')
+KIND_OF_CODE = {"b": "boolean", "i": "integer", "u": "integer", "f": "float", "M": "datetime", "m": "timedelta",
+                "U": "fixed", "T": "string", "S": "bytes", "O": "object"}
 
 
 def decision_list(fn):
